@@ -62,13 +62,14 @@ def plan(tier, seed):
     specs = [{"mode": "synthetic", "n": n, "rseed": seed * 1000 + i} for i in range(14)]
     specs += [{"mode": "shipped", "which": w, "rseed": seed * 1000 + 100 + k, "reps": 1 if tier == "quick" else 30}
               for k, w in enumerate(["mex", "nimitz"])]
+    specs.append({"mode": "layout", "n": 25 if tier == "quick" else 300, "rseed": seed * 1000 + 200})
     return specs
 
 
 def minimums(tier):
     return {"hlog.calls_checked": 5000, "hlog.field_lines_checked": 20000, "fields.calls_checked": 5000,
             "workload.single_byte_probes": 2000, "workload.lengths": 3000,
-            "plugin.hlog_checked": 100}
+            "plugin.hlog_checked": 100, "layout.compared": 40, "layout.decoded_in_plain_tree": 40}
 
 
 def drive(ctx, hlog, rng, path, fields, tag):
@@ -116,6 +117,19 @@ def run(spec, ctx):
                     TABLES[os.path.abspath(path)] = f2
                     ctx.count("workload.same_stat_rewrites")
                     drive(ctx, hlog, rng, path, f2, "syn%d-%d-rw" % (spec["rseed"], i))
+        return
+    if spec["mode"] == "layout":
+        # the shipped field tables are found next to the modules: same result however the package is laid out on disk
+        from vf import layout
+        from io_drawer.drawer_type import DRAWER_TYPES
+        cases = []
+        for dt in DRAWER_TYPES:
+            fields, _ = im.parse_shipped_hlog_fields(dt.get_header_file_path())
+            rl = iogen.record_len(fields)
+            for _ in range(spec["n"]):
+                n = rng.choice([rl, rl, rl + 3, max(1, rl - 1), rng.randrange(1, rl + 9)])
+                cases.append((72, dt.user_data_version, bytes(rng.choice([0, 0, 1, 0xFF, rng.randrange(256)]) for _ in range(n))))
+        layout.compare(ctx, "C16", cases, "history log data")
         return
     from io_drawer.drawer_type import MEX_DRAWER_TYPE, NIMITZ_DRAWER_TYPE
     dt = MEX_DRAWER_TYPE if spec["which"] == "mex" else NIMITZ_DRAWER_TYPE
